@@ -72,6 +72,9 @@ type Carrier struct {
 	hdrReady   bool
 	handlerEnd bool
 	cliSending int // network-client SendMsg calls in progress
+	// failNext[end] = frame kind whose next Send from that end ("cli" / "srv") fails with io.EOF although the
+	// stream is otherwise healthy (as when gRPC's transport already knows the stream is broken, Recv does not yet)
+	failNext map[string]string
 	handlerErr error
 	failed     error // transport failure: both ends fail at once, frames are lost
 	cliSawEnd  bool
@@ -265,9 +268,36 @@ func (c *Carrier) cliSend(m proto.Message, desc func(proto.Message) tr.E) error 
 	return err
 }
 
+// FailNextSend makes the next Send of a frame of the given kind from the given network end ("cli" / "srv") fail.
+func (c *Carrier) FailNextSend(end, kind string) {
+	c.mu.Lock()
+	defer c.mu.Unlock()
+	if c.failNext == nil {
+		c.failNext = map[string]string{}
+	}
+	c.failNext[end] = kind
+	c.emit("car", tr.E{"what": "failnext", "end": end, "kind": kind})
+}
+
+func (c *Carrier) sendFails(end string, m proto.Message, desc func(proto.Message) tr.E) bool {
+	k := c.failNext[end]
+	if k == "" || desc == nil {
+		return false
+	}
+	if kind, _ := desc(m)["kind"].(string); kind == k {
+		delete(c.failNext, end)
+		c.emit("car", tr.E{"what": "sendfailed", "end": end, "kind": k})
+		return true
+	}
+	return false
+}
+
 func (c *Carrier) cliSendLocked(m proto.Message, desc func(proto.Message) tr.E) (string, int64, error) {
 	c.mu.Lock()
 	defer c.mu.Unlock()
+	if c.sendFails("cli", m, desc) {
+		return "", 0, io.EOF
+	}
 	// gRPC's contract for a client stream: no two SendMsg at once, and no CloseSend while a SendMsg is in
 	// progress (a SendMsg waiting for transport capacity is in progress). The carrier reports violations.
 	if c.cliSending > 0 {
@@ -426,6 +456,9 @@ func (c *Carrier) srvSend(m proto.Message, desc func(proto.Message) tr.E) error 
 func (c *Carrier) srvSendLocked(m proto.Message, desc func(proto.Message) tr.E) (string, int64, error) {
 	c.mu.Lock()
 	defer c.mu.Unlock()
+	if c.sendFails("srv", m, desc) {
+		return "", 0, io.EOF
+	}
 	for {
 		if c.failed != nil {
 			return "", 0, c.failed
